@@ -1,9 +1,166 @@
 import Lean.Data.Json
-/-! Line-protocol handler for property C02 (model side of the correspondence). -/
+import SpoxModel.Model.Scope
+import SpoxModel.Model.Named
+import SpoxModel.Model.Naming
+/-! Line-protocol handler for C02: (a) `ScopeSpace` operation sequences, (b) the structural checker on
+    a named graph (the real ModelProto), (c) the naming model on an emission tree. -/
 namespace Drv.C02
-open Lean
+open Lean Scope Named Naming
 
-/-- One request (a JSON value) in, one response (a JSON value) out. -/
-def handle (_req : Json) : Json := Json.mkObj [("error", "unimplemented")]
+def errStr : Err → String
+  | .scope => "scope"
+  | .key => "key"
+
+def strs (j : Json) (k : String) : Except String (List String) := do
+  let a ← j.getObjValAs? (Array String) k
+  return a.toList
+
+partial def parseNGraph (j : Json) : Except String NGraph := do
+  let ins ← strs j "inputs"
+  let inits ← strs j "inits"
+  let outs ← strs j "outputs"
+  let nodesJ ← j.getObjValAs? (Array Json) "nodes"
+  let nodes ← nodesJ.toList.mapM (fun nj => do
+    let name ← nj.getObjValAs? String "name"
+    let i ← strs nj "ins"
+    let o ← strs nj "outs"
+    let subsJ ← nj.getObjValAs? (Array Json) "subs"
+    let subs ← subsJ.toList.mapM parseNGraph
+    return NNode.mk name i o subs)
+  return .mk ins inits nodes outs
+
+partial def ngraphJson : NGraph → Json
+  | .mk ins inits nodes outs =>
+    Json.mkObj [("inputs", toJson ins), ("inits", toJson inits), ("outputs", toJson outs),
+      ("nodes", Json.arr (nodes.map (fun n => match n with
+        | .mk name i o subs => Json.mkObj [("name", name), ("ins", toJson i), ("outs", toJson o),
+            ("subs", Json.arr (subs.map ngraphJson).toArray)])).toArray)]
+
+def frameJson (f : Frame) : Json :=
+  Json.mkObj [("pairs", Json.arr (f.pairs.map (fun p => Json.arr #[toJson p.1, toJson p.2])).toArray),
+              ("reserved", toJson f.reserved)]
+
+def spaceJson (s : Space) : Json :=
+  Json.mkObj [("frames", Json.arr (s.frames.map frameJson).toArray),
+              ("counters", Json.arr (s.counters.map (fun p => Json.arr #[toJson p.1, toJson p.2])).toArray)]
+
+def runOps (ops : List Json) : Except String Json := do
+  let mut s : Space := {}
+  let mut outs : Array Json := #[]
+  for oj in ops do
+    let a ← (oj.getArr?)
+    let k ← (a[0]!).getStr?
+    match k with
+    | "set" =>
+      let n ← (a[1]!).getStr?
+      let o ← (a[2]!).getNat?
+      match s.setitem n o with
+      | .ok s' => s := s'; outs := outs.push "ok"
+      | .error e => outs := outs.push (errStr e)
+    | "reserve" =>
+      let n ← (a[1]!).getStr?
+      match s.reserve n with
+      | .ok s' => s := s'; outs := outs.push "ok"
+      | .error e => outs := outs.push (errStr e)
+    | "del" =>
+      let n ← (a[1]!).getStr?
+      match s.delName n with
+      | .ok s' => s := s'; outs := outs.push "ok"
+      | .error e => outs := outs.push (errStr e)
+    | "enum" =>
+      let b ← (a[1]!).getStr?
+      let (n, s') := s.enum b
+      s := s'; outs := outs.push n
+    | "maybe" =>
+      let b ← (a[1]!).getStr?
+      let (n, s') := s.maybeEnum b
+      s := s'; outs := outs.push n
+    | "push" => s := s.push; outs := outs.push "ok"
+    | "pop" => s := s.pop; outs := outs.push "ok"
+    | "getname" =>
+      let n ← (a[1]!).getStr?
+      outs := outs.push (if s.hasName n then
+        (match getName s.frames n with | some o => toJson o | none => "key") else "absent")
+    | "getobj" =>
+      let o ← (a[1]!).getNat?
+      outs := outs.push (if s.hasObj o then
+        (match getObj s.frames o with | some n => Json.str n | none => "key") else "absent")
+    | _ => throw s!"bad op {k}"
+  return Json.mkObj [("outs", Json.arr outs), ("final", spaceJson s)]
+
+def parseOut (j : Json) : Except String OutVar := do
+  let id ← j.getObjValAs? Nat "id"
+  let field ← j.getObjValAs? String "field"
+  let preset := match j.getObjValAs? String "preset" with
+    | .ok p => some p
+    | .error _ => none
+  return { id, field, preset }
+
+mutual
+partial def parseENode (j : Json) : Except String ENode := do
+  let id ← j.getObjValAs? Nat "id"
+  let opId ← j.getObjValAs? String "op"
+  let kindS ← j.getObjValAs? String "kind"
+  let insJ ← j.getObjValAs? (Array Json) "ins"
+  let ins := insJ.toList.map (fun x => match x.getNat? with | .ok n => some n | .error _ => none)
+  let outsJ ← j.getObjValAs? (Array Json) "outs"
+  let outs ← outsJ.toList.mapM parseOut
+  let subKeys ← strs j "subkeys"
+  let subsJ ← j.getObjValAs? (Array Json) "subs"
+  let subs ← subsJ.toList.mapM parseEGraph
+  let kind ← (match kindS with
+    | "plain" => do
+      let m ← j.getObjValAs? Nat "min_in"
+      return Kind.plain m
+    | "arg" => do
+      let d ← j.getObjValAs? Bool "has_default"
+      return Kind.arg d
+    | "init" => return Kind.init
+    | "intro" => return Kind.intro
+    | "inline" => do
+      let ti ← strs j "top_in"
+      let to ← strs j "top_out"
+      let g ← parseNGraph (← j.getObjVal? "inner")
+      return Kind.inline ti to g
+    | _ => throw "bad kind" : Except String Kind)
+  return .mk id opId kind ins outs subKeys subs
+partial def parseEGraph (j : Json) : Except String EGraph := do
+  let argsJ ← j.getObjValAs? (Array Json) "args"
+  let args ← argsJ.toList.mapM parseENode
+  let nodesJ ← j.getObjValAs? (Array Json) "nodes"
+  let nodes ← nodesJ.toList.mapM parseENode
+  let resJ ← j.getObjValAs? (Array Nat) "results"
+  return .mk args nodes resJ.toList
+end
+
+def scopeEq (a b : Scope) : Bool :=
+  let fe (x y : Space) : Bool :=
+    x.frames.map (fun f => (f.pairs, f.reserved)) == y.frames.map (fun f => (f.pairs, f.reserved)) &&
+      x.counters == y.counters
+  fe a.var b.var && fe a.node b.node
+
+def handle (req : Json) : Json :=
+  match (do
+    let k ← req.getObjValAs? String "k"
+    match k with
+    | "ops" =>
+      let ops ← req.getObjValAs? (Array Json) "ops"
+      runOps ops.toList
+    | "check" =>
+      let g ← parseNGraph (← req.getObjVal? "g")
+      return Json.mkObj [("accept", checkStructural g)]
+    | "compile" =>
+      let t ← parseEGraph (← req.getObjVal? "tree")
+      match compile t with
+      | .error e => return Json.mkObj [("err", errStr e)]
+      | .ok (ng, st) =>
+        let replayOk := match replay {} st.trace.reverse with
+          | .ok sc => scopeEq sc st.sc
+          | .error _ => false
+        return Json.mkObj [("graph", ngraphJson ng), ("trace_ok", replayOk),
+          ("accept", checkStructural ng), ("trace_len", st.trace.length)]
+    | _ => throw "bad request kind") with
+  | .ok j => j
+  | .error e => Json.mkObj [("error", e)]
 
 end Drv.C02
